@@ -9,6 +9,9 @@ WS = ['', ' ', '  ', '\t', ' ', '\n', ' ']
 
 def gen_formula(rng, depth):
     r = rng.random()
+    if rng.random() < 0.06:
+        # the broadcast policy as an OPERAND: it is the constant "true" (neutral for &&, absorbing for ||)
+        return ('star',), rng.choice(WS) + '*' + rng.choice(WS)
     if depth <= 0 or r < 0.3:
         d, n = rng.choice(NAMES), rng.choice(NAMES)
         return ('t', d, n), rng.choice(WS) + d + rng.choice(WS) + '::' + rng.choice(WS) + n
@@ -34,8 +37,10 @@ def gen_andchain(rng, depth):
     return f, s
 
 
-def atoms(f): return {(f[1], f[2])} if f[0] == 't' else atoms(f[1]) | atoms(f[2])
+def atoms(f): return set() if f[0] == 'star' else {(f[1], f[2])} if f[0] == 't' else atoms(f[1]) | atoms(f[2])
+def has_star(f): return f[0] == 'star' or (f[0] != 't' and (has_star(f[1]) or has_star(f[2])))
 def ev(f, env):
+    if f[0] == 'star': return True
     return env[(f[1], f[2])] if f[0] == 't' else (ev(f[1], env) and ev(f[2], env)) if f[0] == 'and' else (ev(f[1], env) or ev(f[2], env))
 
 
@@ -69,7 +74,10 @@ def shrink_str(s, pred):
 def oracle_formula(f, out):
     """property evaluated on the implementation's answer only; returns None or a description"""
     if out == 'PANIC': return 'panic'
-    if out == 'ERR': return 'well-formed formula rejected'
+    if out == 'ERR':
+        # '*' is not part of the documented grammar (the parser accepts it as the last element of a group only):
+        # a formula using it may be rejected; when it is accepted it must be read as the constant "true"
+        return None if has_star(f) else 'well-formed formula rejected'
     if not out.startswith('OK'): return 'no answer: ' + out
     dnf = parse_out(out)
     at = sorted(atoms(f))
